@@ -4,6 +4,15 @@
 //! vectors mean simpler structured cases; this is what makes proptest's
 //! shrinking of `Vec<u8>` and libFuzzer's mutation work on structured data.
 
+/// Marks a choice sequence that carries a tail seed (see `Src::tail_fork_bytes`).
+pub const TAIL_MAGIC: [u8; 2] = [0xa5, 0x5a];
+
+/// Appends the trailer read by `Src::tail_fork_bytes`.
+pub fn append_tail_seed(choice: &mut Vec<u8>, seed: u64) {
+    choice.extend_from_slice(&seed.to_le_bytes());
+    choice.extend_from_slice(&TAIL_MAGIC);
+}
+
 #[derive(Clone)]
 pub struct Src<'a> {
     data: &'a [u8],
@@ -162,5 +171,64 @@ impl<'a> Src<'a> {
         }
         out.truncate(n);
         out
+    }
+
+    /// Like `fork_bytes`, but the 64-bit seed is read from a *trailer* at the very
+    /// end of the choice buffer (`append_tail_seed`: eight seed bytes followed by
+    /// `TAIL_MAGIC`) and the cursor does not move.  Generators use it for
+    /// decisions added after replays were recorded: no existing draw shifts, and a
+    /// choice sequence without the trailer (every sequence recorded before the
+    /// trailer existed) gives all-zero bytes, i.e. "off" for every such decision,
+    /// so that it keeps producing exactly the case it produced before.  A zero
+    /// seed gives all-zero bytes as well.
+    pub fn tail_fork_bytes(&self, n: usize) -> Vec<u8> {
+        let len = self.data.len();
+        if len < 10 || self.data[len - 2..] != TAIL_MAGIC {
+            return vec![0; n];
+        }
+        let mut s = u64::from_le_bytes(self.data[len - 10..len - 2].try_into().unwrap());
+        if s == 0 {
+            return vec![0; n];
+        }
+        // spread short / low-entropy tails over all 64 bits first
+        s = s.wrapping_add(0x9e37_79b9_7f4a_7c15);
+        s = (s ^ (s >> 30)).wrapping_mul(0xbf58_476d_1ce4_e5b9);
+        s = (s ^ (s >> 27)).wrapping_mul(0x94d0_49bb_1331_11eb);
+        s ^= s >> 31;
+        if s == 0 {
+            s = 1;
+        }
+        let mut out = Vec::with_capacity(n + 8);
+        while out.len() < n {
+            s ^= s << 13;
+            s ^= s >> 7;
+            s ^= s << 17;
+            out.extend_from_slice(&s.wrapping_mul(0x2545_f491_4f6c_dd1d).to_le_bytes());
+        }
+        out.truncate(n);
+        out
+    }
+}
+
+#[cfg(test)]
+mod tests {
+    use super::*;
+
+    #[test]
+    fn tail_seed_needs_the_trailer_and_leaves_the_cursor() {
+        let plain = [7u8, 200, 13, 0xa5, 0x5a, 1, 2, 3, 4, 5, 6, 7];
+        assert!(Src::new(&plain).tail_fork_bytes(32).iter().all(|&b| b == 0));
+        assert!(Src::new(&[]).tail_fork_bytes(8).iter().all(|&b| b == 0));
+        let mut with = plain.to_vec();
+        append_tail_seed(&mut with, 0x0123_4567_89ab_cdef);
+        let mut s = Src::new(&with);
+        let a = s.tail_fork_bytes(64);
+        assert_eq!(s.consumed(), 0);
+        assert!(a.iter().any(|&b| b != 0));
+        let _ = s.u32();
+        assert_eq!(s.tail_fork_bytes(64), a, "independent of the cursor");
+        let mut zero = plain.to_vec();
+        append_tail_seed(&mut zero, 0);
+        assert!(Src::new(&zero).tail_fork_bytes(16).iter().all(|&b| b == 0));
     }
 }
